@@ -113,3 +113,9 @@ const (
 	maximumTTL = 12 * time.Hour
 	defaultCap = 1024 * 256
 )
+
+// MaxLease is the ceiling on any delegation lease. SetUntil/Set clamp the
+// STORED entry to it; callers that hand a lease deadline to anything else
+// (the answer cache's delegation cut, a descendant delegation) must apply the
+// same ceiling, anchored at the instant the referral was observed.
+const MaxLease = maximumTTL
